@@ -74,6 +74,10 @@ def apply_pattern(specs, key, pat):
     """pat: None (all stages succeed) or (stage, action list)"""
     if pat is None:
         return
+    if pat[0] == "multi":   # several stages scripted for the same input
+        for sub in pat[1]:
+            apply_pattern(specs, key, sub)
+        return
     st, act = pat
     if st < len(specs):
         specs[st]["script"][key] = list(act)
@@ -84,7 +88,23 @@ def std_pipeline(ngeneric, rot=0):
     specs = [spec("ld", kind="loader", types=("str",), out="TA", style=STYLES[rot % 4])]
     for j in range(ngeneric):
         specs.append(spec(f"g{j+1}", types=("TA",), out="TA", style=STYLES[(rot + j + 1) % 4]))
+    declare_returns(specs)
     return specs
+
+
+def declare_returns(specs, rng=None):
+    """declared return types (the type hint after `->`): the class a stage normally produces, wherever the composition
+    check of `+` accepts it (the next stage names that class; the writer needs SerialisableType).  What a stage really
+    returns is scripted and may be anything: every step must still check its input at run time."""
+    for j, sp in enumerate(specs):
+        if rng is not None and rng.random() < 0.4:
+            continue
+        if j + 1 < len(specs):
+            nxt = specs[j + 1]["types"]
+            if nxt is not None and sp["out"] in nxt:
+                sp["ret"] = [sp["out"]]
+        else:
+            sp["ret"] = [sp["out"], "SerialisableType"]
 
 
 PATTERNS_CORE = [
@@ -98,6 +118,11 @@ PATTERNS_CORE = [
     (2, ["ncnosrc", "FAIL"]),
     (1, ["list"]),               # list of TA passes the type check of stage 2 by its first element
     (2, ["falsy"]),              # falsy-but-valid final value
+    # values whose source cannot be discovered, followed by a failure: the record is not-completed with source None
+    (0, ["odd", "dict_info_none"]),                                            # stage 1 refuses the class 'dict'
+    ("multi", [(0, ["odd", "src_typeerror"]), (1, ["raise", "bang"])]),
+    ("multi", [(0, ["odd", "src_zerodiv"]), (1, ["none"])]),
+    ("multi", [(0, ["odd", "info_raises"]), (1, ["odd", "src_runtime"]), (2, ["ncsrc", "FALSE"])]),
 ]
 
 
@@ -172,7 +197,16 @@ def ostr(s):
     return "None" if s is None else f"(Some {zstr(s)})"
 
 
-def coq_action(a):
+ODD_KINDS = ["dict_info_none", "dict_info_str", "dict_info_int", "src_typeerror", "src_runtime", "src_zerodiv",
+             "info_raises", "nosource"]
+
+
+def odd_class(kind, out):
+    """class name of a value whose source cannot be discovered: a dict, or an instance of the stage's output class"""
+    return "dict" if kind.startswith("dict_") else out
+
+
+def coq_action(a, out="TA"):
     k = a[0]
     if k == "ok":
         return "AOk"
@@ -186,13 +220,15 @@ def coq_action(a):
         return f"(ANCnosrc {zstr(a[1])})"
     if k == "wrong":
         return f"(AWrong {zstr(a[1])})"
+    if k == "odd":
+        return f"(AOdd {zstr(odd_class(a[1], out))})"
     return {"empty": "AEmpty", "list": "AList", "str": "AStr", "falsy": "AFalsy", "dropsrc": "ADropSrc"}[k]
 
 
 def coq_spec(sp):
     kind = {"loader": "LOADER", "generic": "GENERIC"}[sp["kind"]]
     types = "None" if sp["types"] is None else "(Some [" + ";".join(zstr(t) for t in sorted(sp["types"])) + "])"
-    script = "[" + ";".join(f"({zstr(k)},{coq_action(a)})" for k, a in sp["script"].items()) + "]"
+    script = "[" + ";".join(f"({zstr(k)},{coq_action(a, sp['out'])})" for k, a in sp["script"].items()) + "]"
     return f"(mkspec {zstr(sp['name'])} {kind} {types} {cbool(sp['skip'])} {zstr(sp['out'])} {script})"
 
 
@@ -380,6 +416,8 @@ def oracle_single(specs, inp):
             v = ("obj", sp["out"], k, trace, s, False)
         elif a[0] == "dropsrc":
             v = ("obj", sp["out"], k, trace, None, True)
+        elif a[0] == "odd":   # no discoverable source: any later failure is a record with source None, never an exception
+            v = ("obj", odd_class(a[1], sp["out"]), k, trace, None, True)
     return canon_oracle_value(v), calls
 
 
@@ -522,7 +560,7 @@ def hazard_cases(tier):
 
 
 ACTIONS = [["raise", "boom"], ["none"], ["ncsrc", "FALSE"], ["ncsrc", "ERROR"], ["ncnosrc", "FAIL"], ["wrong", "TB"],
-           ["empty"], ["list"], ["str"], ["falsy"]]
+           ["empty"], ["list"], ["str"], ["falsy"]] + [["odd", k] for k in ODD_KINDS]
 NAME_POOLS = [TAME, ["s1.fa", "s2.fa", "t1.fa", "t22.fa", "u.fasta", "v.fa.bz2", "dir/w.fa", "x_1.fa", "y-2.fa", "z.txt"]]
 
 
@@ -549,6 +587,7 @@ def random_case(rng, tier):
                 sp = spec(f"g{j}", types=types, out=rng.choice(["TA", "TA", "TB"]), skip=rng.random() < 0.9,
                           style=rng.choice(STYLES))
             specs.append(sp)
+        declare_returns(specs, rng)
         names = names_all if pi == 0 else rng.sample(pool, rng.randint(1, min(len(pool), 7)))
         for nm in names:
             if rng.random() < 0.45:
